@@ -137,7 +137,7 @@ def dispatch_models():
 
 
 def run_dispatch(P, funcname="diff", pos=None, to=None, axnames=("AX",), axis_arg=None, dims=None, data_as_vector=False,
-                 default_shifts=None, positions=None, kwargs=None, metric_weighted=None, other_component=None, attr_models=None, reorder_noncore=False):
+                 default_shifts=None, positions=None, kwargs=None, metric_weighted=None, other_component=None, attr_models=None, reorder_noncore=False, per_axis_shifts=None):
     """Evaluate Grid._1d_grid_ufunc_dispatch as a whole.  pos: {axis: position of the data}."""
     from .geometry import POSITIONS
 
@@ -150,6 +150,8 @@ def run_dispatch(P, funcname="diff", pos=None, to=None, axnames=("AX",), axis_ar
 
     def make():
         g = make_grid(axnames, positions=positions or POSITIONS, default_shifts=default_shifts)
+        for a_, sh in (per_axis_shifts or {}).items():  # an Axis has its own table of default shifts
+            g.attrs["axes"][Sym(a_)].attrs["_default_shifts"] = dict(g.attrs["axes"][Sym(a_)].attrs["_default_shifts"], **sh)
         dd = dims if dims is not None else [Sym("t")] + [dimsym(a, pos[a]) for a in axnames]
         da = make_da("da", dd, name=Sym("da_name"))
         data = {Sym(axnames[0]): da} if data_as_vector else da
